@@ -56,6 +56,7 @@ LArg(shape, j) ==
 
 \* numeric root operators
 NumOps == {"plneg", "plpos",             \* piecewise-linear terms whose breakpoints all lie on one side of 0
+           "pl1",                        \* a piecewise-linear term with a single breakpoint (three points on a bounded domain)
            "div", "ifc", "countn",       \* division by an expression, if-then-else with constant branches, count of numeric operands
            "add", "sub", "mul", "mulc", "neg", "abs", "min2", "max2", "min3", "max3", "if", "count",
            "numberofc", "numberofv", "pl", "divc", "sqr", "pow3", "sum3", "absdiff", "maxabs"}
@@ -78,6 +79,7 @@ NumExprA(op, a, b, c, p, q, r) ==
     [] op = "numberofc" -> ON(60, <<N(1), a, b, c>>)
     [] op = "numberofv" -> ON(60, <<a, b, c>>)
     [] op = "pl"   -> PL(<<-1, 1, 2>>, <<0, 1>>, V(0))
+    [] op = "pl1"  -> PL(<<-1, 2>>, <<1>>, a)
     [] op = "plneg" -> PL(<<1, -2, 3>>, <<-3, -2>>, a)
     [] op = "plpos" -> PL(<<2, -1, 1>>, <<1, 2>>, a)
     [] op = "divc" -> O2(3, a, N(2))
